@@ -65,3 +65,8 @@ static parsec_key_t ref_key_of(const REF_TP_T *tp, const int *g, int c, const in
     if (c == 0) { __parsec_chain_C_parsec_assignment_t a = { 0 }; ref_C_fill(&a, g, p); return __jdf2c_make_key_C((const parsec_taskpool_t *)tp, (const parsec_assignment_t *)&a); }
     return 0;
 }
+
+/* OUT side, final write-back:  A -> (k < NT-1) ? A C(k+1) : descA(k)   (which: 0 = the JDF's first collection) */
+static int ref_final_write(const int *g, int c, const int *p, int f, int *co, int *which)
+{ (void)c; if (f == C_A && !(p[0] < g[0] - 1)) { co[0] = p[0]; *which = 0; return 1; } return 0; }
+static parsec_data_collection_t *ref_collection(REF_TP_T *tp, int which) { (void)which; return tp->super._g_descA; }
